@@ -65,6 +65,13 @@ def canon(buf, extra_mask=()):
             payload = bytes(len(payload))
         elif es == PS and len(payload) % PS == 0 and ("particle" in name or name.startswith("ri_") or "p_" in name):
             payload = mask_particles(payload)
+        elif name == "var_config" and es and len(payload) % es == 0:
+            b_ = bytearray(payload)                        # struct reb_variational_configuration starts with a pointer to its simulation
+            for o in range(0, len(b_), es):
+                b_[o:o + 8] = bytes(8)
+                if es == 40:
+                    b_[o + 28:o + 32] = bytes(4)           # padding between the five ints and lrescale (never initialised)
+            payload = bytes(b_)
         out.append(struct.pack("<IQ", typ, len(payload)) + payload)
     return b"".join(out)
 
@@ -433,6 +440,16 @@ def mode_server(p):
     sim0 = build(spec)
     if sleep_s > 0:
         sim0.additional_forces = lambda sp: None          # same code path as the observed runs (a callback is installed), no sleep
+    if p.get("hb_two_writes", True):
+        # the USER's heartbeat (which edits two radii) belongs to the scenario, not to the serving: same edits, nothing serialised
+        st0 = {"n": 0, "sd": -1}
+        def hb0(sp):
+            s_ = sp.contents
+            st0["n"] += 1
+            if s_.N >= 2 and (int(s_.steps_done) != st0["sd"] or p.get("hb_prologue_too", False)):
+                s_.particles[0].r = float(st0["n"]); s_.particles[1].r = float(st0["n"])
+            st0["sd"] = int(s_.steps_done)
+        sim0.heartbeat = hb0
     t0_ = 0.0
     for i in range(p["calls"]):
         t0_ += tmax / p["calls"]
@@ -441,7 +458,7 @@ def mode_server(p):
     recA, orderA, _, _, finalA, bytesA = run(False)
     recB, orderB, got, errs, finalB, simB_state = run(True)
     res = {"boundaries": len(recA), "served": len(got), "client_errors": errs, "trajectory_equal": finalA == finalB and orderA == orderB,
-           "unobserved_equal": simB_state == unobs,
+           "unobserved_equal": simB_state == unobs, "final_stream_equal": finalA == finalB, "boundary_order_equal": orderA == orderB,
            "unobserved_differing_doubles": sum(1 for a, b in zip(simB_state[0] + simB_state[1], unobs[0] + unobs[1]) if a != b),
            "unparsable": 0, "not_a_boundary": [], "full_stream_mismatch": 0, "continued": 0, "continuation_mismatch": [], "distinct_served": 0}
     seen = set()
@@ -822,6 +839,37 @@ def mode_hammer(p):
     return res
 
 
+def mode_compress(p):
+    """(ri_ias15.N_allocated before, r->N, r->N_var, N_allocated after one reb_simulation_save_to_stream) on the real library, for the
+    correspondence with the Gallina ias15_compress"""
+    rng = random.Random(p["seed"])
+    cases = []
+    for k in range(p["cases"]):
+        n0 = rng.randint(1, 12)
+        spec = {"integrator": "ias15", "n": n0, "seed": rng.randint(1, 10 ** 6), "dt": 0.01}
+        kind = k % 4
+        if kind == 1:
+            spec["variations"] = rng.randint(1, 3)
+        if kind == 2:
+            spec["megno"] = 1
+        sim = build(spec)
+        if rng.random() < 0.85:
+            sim.steps(rng.randint(1, 3))                 # allocates 3*N
+        if kind in (0, 3) and sim.N > 2:
+            for _ in range(rng.randint(0, sim.N - 2)):    # N shrinks, N_allocated stays: the compression has something to do
+                sim.remove(sim.N - 1)
+        if kind == 3:
+            spec2 = rng.randint(1, 2)
+            for i in range(spec2):
+                sim.add_variation()
+        before = int(sim.ri_ias15._N_allocated); n = int(sim.N); nvar = int(sim.N_var)
+        b1 = stream_of(sim)
+        after = int(sim.ri_ias15._N_allocated)
+        b2 = stream_of(sim)
+        cases.append([before, n, nvar, after, int(sim.ri_ias15._N_allocated), b1 == b2])
+    return {"cases": cases}
+
+
 def mode_teardown(p):
     """life cycle under load: simulations with a running server and clients fetching continuously are freed (Python: del ->
     reb_simulation_free_pointers -> reb_simulation_stop_server) or have their server stopped and restarted; a crash or hang of this
@@ -926,7 +974,7 @@ if __name__ == "__main__":
     if mode == "client":
         mode_client(); sys.stdout.flush(); os._exit(0)
     params = json.load(sys.stdin)
-    res = {"conc": mode_conc, "server": mode_server, "torn": mode_torn, "w512": mode_w512, "fdclose": mode_fdclose, "steps": mode_steps, "keyboard": mode_keyboard, "coresident": mode_coresident, "teardown": mode_teardown, "hammer": mode_hammer}[mode](params)
+    res = {"conc": mode_conc, "server": mode_server, "torn": mode_torn, "w512": mode_w512, "fdclose": mode_fdclose, "steps": mode_steps, "keyboard": mode_keyboard, "coresident": mode_coresident, "teardown": mode_teardown, "hammer": mode_hammer, "compress": mode_compress}[mode](params)
     print(json.dumps(res))
     sys.stdout.flush()
     os._exit(0)
